@@ -65,6 +65,8 @@ type RigOpts struct {
 	EndMarker bool
 	Mut       func(c *pfcpiface.Conf)
 	Junk      int // junk entries put into the datapath before the agent starts
+	// SmallPools serves a P4Info with 9-cell meters and 16-cell counters (C15)
+	SmallPools bool
 }
 
 // newRig starts a fresh datapath server and a fresh in-process agent.
@@ -73,7 +75,11 @@ func newRig(o RigOpts) (*Rig, error) {
 	r := &Rig{}
 	var conf pfcpiface.Conf
 	if o.UP4 {
-		p4, err := rig.NewP4d("127.0.0.1:0")
+		var ms, cs int64
+		if o.SmallPools {
+			ms, cs = 9, 16
+		}
+		p4, err := rig.NewP4dSized("127.0.0.1:0", ms, cs)
 		if err != nil {
 			return nil, err
 		}
